@@ -147,9 +147,10 @@ def run_translator(log):
     newest = max(os.path.getmtime(p) for p in glob.glob(os.path.join(src, "*.go")) + [os.path.join(src, "go.mod")])
     if not os.path.exists(binp) or os.path.getmtime(binp) < newest:
         os.makedirs(os.path.dirname(binp), exist_ok=True)
-        rc, out = sh(["go", "build", "-o", binp + ".new", "."], cwd=src, env=GOENV, timeout=300)
+        tmpb = "%s.new.%d" % (binp, os.getpid())   # concurrent checks (alternate checkouts) must not share the temp name
+        rc, out = sh(["go", "build", "-o", tmpb, "."], cwd=src, env=GOENV, timeout=300)
         if rc == 0:
-            os.replace(binp + ".new", binp)
+            os.replace(tmpb, binp)
         elif os.path.exists(binp):
             # a generator file is being edited right now: keep using the last binary that built
             # (on a fresh restore there is none, and setup.sh / this branch then fail for real)
